@@ -100,6 +100,17 @@ CLAIMED.update({
   design="DESIGN.md §4.C08"),
 })
 
+CLAIMED.update({
+ "C12": dict(
+  text="Zero-annotation safety sweep (one obligation per possible Go runtime panic: nil receiver, index, slice bounds, non-comma-ok type assertion) over every function of parser.go, scanner.go and token.go, discharged with thin contracts: "
+       "every parse* method returns a non-nil token on both outcomes (what formatError dereferences), push-back stack and token queue are distinct non-nil objects holding non-nil tokens, the scanner cursor invariant "
+       "0 <= first <= next <= len(runes) with line <= 1 + consumed runes, indexOfLastEOL's exact result, and frame conditions (parse* only touch the two token containers). For every input string — the source is symbolic — no path of ParseSource reaches a Go runtime error.",
+  note="NOT decided (outside the family or no contract within reach): termination of the input-driven loops and recursion (hangs), Go stack exhaustion on deep nesting, the scanner goroutine being left blocked after a parser panic, "
+       "exactness of the reported line/column. Assumptions (listed in evidence): regexp submatches are substrings of the text; hexadecimal tokens match 0x[0-9a-f]+; every token's line lies inside the source (formatError); "
+       "tokens taken from the queue are the non-nil ones the scanner added (producer side checked in emitToken); package-level class objects are non-nil; scannerClass_.MatchToken/FormatToken and strconv/strings/fmt are external.",
+  design="DESIGN.md §4.C12"),
+})
+
 NOT_YET = {}
 
 TECH = "contract-based deductive verification: weakest-precondition style VCs generated from go/ssa of /repo, contracts in //go:build verif comment files, discharged by z3 5.1 / z3 4.8 / cvc5"
